@@ -255,8 +255,10 @@ class CallMixin:
                                                         z3.Select(newheap["t_len"], ta) == z3.Select(st.heap["t_len"], ta))))
             s2.assume(z3.Implies(guard, z3.Select(newheap["fld:__class__"], a) == z3.Select(st.heap["fld:__class__"], a)))
 
-    def havoc(self, st: State, anchor: str) -> State:
-        """Foreign code runs (other tasks at an await, user code in an opaque call): new heap under the rely."""
+    def havoc(self, st: State, anchor: str, callee=None) -> State:
+        """Foreign code runs (other tasks at an await, user code in an opaque call): new heap under the rely.
+        With `callee` (a contracted coroutine that suspends): the callee's own effects are part of the step, so the
+        environment-only clauses are replaced by what the callee's contract declares (env_preserved)."""
         s2 = st.copy()
         old = HeapView(st.heap)
         newheap = self.fresh_heap("hv")
@@ -266,9 +268,12 @@ class CallMixin:
         new = HeapView(newheap)
         s2.assume(new.alloc >= old.alloc)
         wanted = set(getattr(self.spec, "uses_invariants", ()) or ())
+        env_only = {e[0] for e in self.reg.extra_rely}
         for entry in self.reg.rely_clauses(self):
             if len(entry) > 3 and entry[3].get("lazy") and entry[0] not in wanted:
                 continue            # proved for every segment, but used as a hypothesis only where a contract asks for it
+            if callee is not None and entry[0] in env_only and entry[0] in getattr(callee, "changes_env", ()):
+                continue            # the callee itself changes this (e.g. Context.__aenter__/__aexit__ and the current context)
             if entry[0].startswith(("immutable:", "set-monotone:")):
                 # quantified immutability: ground instances for the objects in scope are assumed below; the
                 # quantified form is a second-stage hypothesis
@@ -277,7 +282,12 @@ class CallMixin:
                 s2.assume(entry[1](old, new))
         for entry in self.reg.invariants:
             self.assume_invariant(s2, entry, new)
-        if self.spec is not None and hasattr(self.spec, "extra_rely") and not getattr(self, "_dry", 0) < 0:
+        for (cls_, addr_) in st.loopvars.get("open_cms", ()):
+            fn_ = self.reg.with_rely.get(cls_)
+            if fn_ is not None:
+                s2.uses.add("A-WITH")
+                s2.assume(fn_(old, new, addr_))
+        if self.spec is not None and hasattr(self.spec, "extra_rely") and callee is None:
             import inspect
             er = self.spec.extra_rely
             clauses = er(self, st, anchor) if len(inspect.signature(er).parameters) >= 3 else er(self, st)
@@ -303,6 +313,9 @@ class CallMixin:
                     s2.assume(z3.Select(newheap[c], st.envref) == z3.Select(st.heap[c], st.envref))
         s2.seg = dict(newheap)
         s2.tags.append(anchor)
+        # vacuity guard: the rely + invariants + assumptions after this havoc must not be contradictory
+        if not getattr(self, "_dry", 0):
+            self.oblige(s2, "canary", "rely-not-contradictory", z3.BoolVal(False), anchor, expect="not-unsat")
         return s2
 
     def opaque_call(self, st: State, f: SV, args: list[SV], anchor: str, what="call") -> list[Res]:
@@ -321,14 +334,14 @@ class CallMixin:
         ok = s2.copy()
         res = fresh("ret")
         self.wf_value(ok, res)
-        ok.trace.append(("opaque", f, args, SV(res, ANY)))
+        ok.trace.append(("opaque", f, args, SV(res, ANY), anc))
         if self.spec is not None:
             self.spec.after_opaque_call(self, st, ok, f, args, SV(res, ANY), None, anc)
         out.append(Res(ok, SV(res, ANY)))
         bad = s2.copy()
         bad.tags.append("raises")
         e = self.unknown_exception(bad)
-        bad.trace.append(("opaque-raise", f, args, e))
+        bad.trace.append(("opaque-raise", f, args, e, anc))
         if self.spec is not None:
             self.spec.after_opaque_call(self, st, bad, f, args, None, e, anc)
         out.append(Res(bad, None, e))
@@ -406,6 +419,10 @@ class CallMixin:
 
     def eval_call(self, node: ast.Call, st: State, awaited=False) -> list[Res]:
         f = node.func
+        if self.spec is not None and ast.unparse(node) in getattr(self.spec, "pure_exprs", ()):
+            # declared pure by the contract (assumed: introspection helpers): an unknown value, no effect
+            st.uses.add("AX-ITER-PURE")
+            return [Res(st, SV(fresh("pure"), ANY))]
         if self.is_logging_call(node):
             # dropped (DESIGN 2.3): argument expressions are still evaluated
             self.drop("logging-call")
@@ -599,6 +616,7 @@ class CallMixin:
             self.escape(st, v)
         if spec.assumed:
             st.uses.add(spec.assumed)
+        st.trace.append(("spec_call", qual, dict(args)))
         F0 = Frame(self, st, st, args)
         for (name, f) in spec.requires(F0):
             self.oblige(st, "pre", f"{qual.split('.', 1)[-1]}.{name}", f, anchor)
@@ -630,7 +648,7 @@ class CallMixin:
             s2.heap["alloc"] = fresh("cs.alloc", I)
             s2.assume(s2.heap["alloc"] >= old_alloc)
         elif spec.suspends or spec.modifies == "rely":
-            s2 = self.havoc(st, anchor)
+            s2 = self.havoc(st, anchor, callee=spec)
             if spec.suspends:
                 s2.suspended = z3.BoolVal(True)
         else:
@@ -733,6 +751,7 @@ class CallMixin:
             a = st.new_ref(owned=False)
             st.set_fld("__class__", a, con(cls))
             obj = SV(vref(a), INST(cls))
+            st.trace.append(("new", cls, a))
             out = []
             for r in self.call_spec(st, init.qual, [obj] + pos, kw, self.anchor_for(node)):
                 out.append(Res(r.st, obj) if r.exc is None else r)
